@@ -8,7 +8,7 @@ PLAN = {
     "C01": dict(
         gen=dict(quick=[("Gen_C01", "Gen_C01.cfg")], thorough=[("Gen_C01", "Gen_C01_T.cfg")]),
         traces=[("sweep_c01", (1, 2)), ("long_c01", (1, 2)), ("c01", (1, 6)), ("c01x", (None, 1))],
-        seeds=dict(quick=1, thorough=3), seeded={"c01x": False},
+        seeds=dict(quick=1, thorough=6), seeded={"c01x": False},
         mc=dict(quick=["MC_C01"]),
         rule="parse events through the 7 entry points x 7 codecs x word-boundary lengths x "
              "{valid, one/two/all bad bytes, non-ASCII, case twin}; distinct = distinct event lines, "
@@ -16,7 +16,7 @@ PLAN = {
     ),
     "C02": dict(
         traces=[("sweep_c02", (1, 2)), ("long_c02", (1, 2)), ("c02", (1, None)), ("c02all", (None, 4))],
-        seeds=dict(quick=1, thorough=2),
+        seeds=dict(quick=1, thorough=5),
         mc=dict(quick=["MC_C02"]),
         rule="eq / hash / mapget events over content pairs {equal, one symbol changed first/last/random, "
              "prefix, suffix, empty, +1} in every representation (Seq, &Seq, SeqSlice, &SeqSlice at offsets, "
@@ -24,7 +24,7 @@ PLAN = {
     ),
     "C03": dict(
         traces=[("sweep_c03", (1, 2)), ("long_c03", (1, 2)), ("c03", (2, 12))],
-        seeds=dict(quick=1, thorough=3),
+        seeds=dict(quick=1, thorough=6),
         mc=dict(quick=["MC_C03"]),
         gen=dict(quick=[("Gen_C03", "Gen_C03.cfg")], thorough=[("Gen_C03", "Gen_C03_T.cfg")]),
         rule="obs events over nested range expressions (7 forms, depth <= 3) on owned / literal / k-mer parents of "
@@ -32,7 +32,7 @@ PLAN = {
     ),
     "C04": dict(
         traces=[("sweep_c04", (1, 2)), ("long_c04", (1, 2)), ("c04", (2, None)), ("c04all", (None, 4))],
-        seeds=dict(quick=1, thorough=3),
+        seeds=dict(quick=1, thorough=6),
         mc=dict(quick=["MC_C04"]),
         rule="toint / kfromint / intoraw / fromraw events: slices at offsets with K*BITS <=/> 64, images of "
              "sequences produced by parse / collect / offset copy / rev / comp / bitwise / edits, every count",
@@ -46,7 +46,7 @@ PLAN = {
     ),
     "C06": dict(
         traces=[("sweep_c06", (1, 2)), ("long_c06", (1, 2)), ("c06", (400, 3000))],
-        seeds=dict(quick=1, thorough=4),
+        seeds=dict(quick=1, thorough=5),
         mc=dict(quick=["MC_C06"]),
         gen=dict(quick=[("Gen_C06", "Gen_C06.cfg")], thorough=[("Gen_C06", "Gen_C06_T.cfg"), ("Gen_C06", "Gen_C06_T3.cfg")]),
         rule="random edit histories (push/extend/append/prepend/insert/remove/truncate/clear/clone/to_owned) on 6 "
@@ -56,14 +56,14 @@ PLAN = {
     "C07": dict(
         gen=dict(quick=[("Gen_C07", "Gen_C07.cfg")], thorough=[("Gen_C07", "Gen_C07_T.cfg")]),
         traces=[("sweep_c07", (1, 2)), ("long_c07", (1, 2)), ("c07", (1, None)), ("c07all", (None, 1))],
-        seeds=dict(quick=1, thorough=2),
+        seeds=dict(quick=1, thorough=5),
         mc=dict(quick=["MC_C07"]),
         rule="copying / inplace transform events (rev, comp, revcomp) on slices at offsets x word-boundary lengths, "
              "compositions and receiver re-observation",
     ),
     "C08": dict(
         traces=[("sweep_c08", (1, 2)), ("c08", (1, None)), ("c08all", (None, 1))],
-        seeds=dict(quick=1, thorough=2),
+        seeds=dict(quick=1, thorough=5),
         mc=dict(quick=["MC_C08"]),
         rule="kfrom / kparse / kmers / ktoseq / deref events for boundary K (quick) or every instantiated K "
              "(thorough) x usize/u64/u128 x slices at offsets x n<K, n=K, n>K",
@@ -71,7 +71,7 @@ PLAN = {
     "C09": dict(
         gen=dict(quick=[("Gen_C09", "Gen_C09.cfg")], thorough=[("Gen_C09", "Gen_C09_T.cfg")]),
         traces=[("c09", (1, None)), ("c09all", (None, 1)), ("c09x", (2, 4))],
-        seeds=dict(quick=1, thorough=2), seeded={"c09x": False},
+        seeds=dict(quick=1, thorough=5), seeded={"c09x": False},
         mc=dict(quick=["MC_C09"]),
         rule="kop events (rotl/rotr by 0..2K, 65536+r, u32::MAX; pushl/pushr of every symbol; rev; comp; revcomp) "
              "on boundary patterns for every K x storage; exhaustive over all k-mers for small K",
@@ -79,14 +79,14 @@ PLAN = {
     "C10": dict(
         traces=[("sweep_c10", (1, 2)), ("long_c10", (1, 2)), ("c10", (1, None)), ("c10all", (None, 2))],
         codecs={"sweep_c10": ORD, "long_c10": ORD, "c10": ORD, "c10all": ORD},
-        seeds=dict(quick=1, thorough=3),
+        seeds=dict(quick=1, thorough=6),
         mc=dict(quick=["MC_C10"]),
         rule="cmp events on adversarial k-mer pairs (differ only first / only last, first-says-less-last-says-greater) "
              "for every K x storage, min/max/sort minimisers, equal-length owned sequences; codecs that are Ord",
     ),
     "C11": dict(
         traces=[("sweep_c11", (1, 2)), ("long_c11", (1, 2)), ("c11", (1, None)), ("c11all", (None, 2))],
-        seeds=dict(quick=1, thorough=2),
+        seeds=dict(quick=1, thorough=5),
         mc=dict(quick=["MC_C11"]),
         gen=dict(quick=[("Gen_C11", "Gen_C11.cfg")], thorough=[("Gen_C11", "Gen_C11_T.cfg")]),
         rule="itrun events (iter, into_iter, rev, windows, chunks, chain) with widths 1..n+2 on slices at offsets, "
@@ -96,7 +96,7 @@ PLAN = {
         gen=dict(quick=[("Gen_C12", "Gen_C12.cfg")], thorough=[("Gen_C12", "Gen_C12_T.cfg")]),
         traces=[("sweep_c12", (1, 2)), ("long_c12", (1, 2)), ("c12", (1, None)), ("c12all", (None, 1)), ("c12dna", (1, 1))],
         codecs={"sweep_c12": ["iupac"], "long_c12": ["iupac"], "c12": ["iupac"], "c12all": ["iupac"], "c12dna": ["dna"]},
-        seeds=dict(quick=1, thorough=2),
+        seeds=dict(quick=1, thorough=5),
         mc=dict(quick=["MC_C12"]),
         rule="bitop / contains events: operands laid out so all 256 symbol pairs meet, at independent nibble "
              "offsets (6 pairs quick, all 16x16 thorough), borrowed and owned forms, all receiver kinds, length "
@@ -106,7 +106,7 @@ PLAN = {
         gen=dict(quick=[("Gen_C13", "Gen_C13.cfg")]),
         traces=[("sweep_c13", (1, 2)), ("long_c13", (1, 2)), ("c13", (30, 300))],
         codecs={"sweep_c13": ["dna"], "long_c13": ["dna"], "c13": ["dna"]},
-        seeds=dict(quick=1, thorough=3),
+        seeds=dict(quick=1, thorough=6),
         mc=dict(quick=["MC_C13"]),
         exhaustive=True,
         rule="toamino events: all 64 codons x all 32 bit offsets (2048 cases, enumerated completely) plus random "
@@ -125,7 +125,7 @@ PLAN = {
         gen=dict(quick=[("Gen_C15", "Gen_C15.cfg")]),
         traces=[("c15", (24, 200))],
         codecs={"c15": ["dna", "iupac"]},
-        seeds=dict(quick=1, thorough=4),
+        seeds=dict(quick=1, thorough=8),
         mc=dict(quick=["MC_C15"]),
         rule="tablenew / tableamino / tablecodon events: random maps over codons of length 1..4 with 0/1/2/3+ "
              "preimages, each table built 4x (fresh hash order), queries as slices at offsets",
@@ -150,7 +150,7 @@ PLAN = {
     ),
     "C18": dict(
         traces=[("sweep_c18", (1, 2)), ("long_c18", (1, 2)), ("c18", (6, None)), ("c18all", (None, 12))],
-        seeds=dict(quick=1, thorough=3),
+        seeds=dict(quick=1, thorough=6),
         mc=dict(quick=["MC_C06"]),
         rule="serde / kserde events (json + bincode) on sequences with histories (with_capacity, offset copies, "
              "reversal, removals) and on k-mers of boundary / every K and storage",
@@ -159,7 +159,7 @@ PLAN = {
         gen=dict(quick=[("Gen_C19", "Gen_C19.cfg")], thorough=[("Gen_C19", "Gen_C19_T.cfg")]),
         traces=[("sweep_c19", (1, 2)), ("long_c19", (1, 2)), ("c19conv", (2, 10)), ("c19trim", (5, 6))],
         codecs={"sweep_c19": ["dna"], "long_c19": ["dna"], "c19conv": ["dna"]},
-        seeds=dict(quick=1, thorough=3),
+        seeds=dict(quick=1, thorough=6),
         mc=dict(quick=["MC_C19"]),
         rule="convert events (dna->iupac/text from slices, literals, SeqArray by ref and by value), textbase for "
              "all 256 bytes, trim for all strings of length <= 5 (quick) / 6 (thorough) over 2 good + 2 bad bytes "
@@ -169,7 +169,7 @@ PLAN = {
         gen=dict(quick=[("Gen_C07", "Gen_C20.cfg")]),
         traces=[("sweep_c20", (1, 2)), ("long_c20", (1, 2)), ("c20", (1, None)), ("c20all", (None, 1))],
         codecs={"sweep_c20": ["mdna", "miupac"], "long_c20": ["mdna", "miupac"], "c20": ["mdna", "miupac"], "c20all": ["mdna", "miupac"]},
-        seeds=dict(quick=1, thorough=2),
+        seeds=dict(quick=1, thorough=5),
         mc=dict(quick=["MC_C20"]),
         rule="mask / unmask copying and in-place events composed with rev / comp / revcomp on sequences with "
              "5-bit symbols at positions 12, 25, 38, 51 (mod 64)",
